@@ -459,6 +459,19 @@ def handle : List String → Option String
       | [a, b] => do let a ← int? a; let b ← int? b; some (some (a, b))
       | _ => none
     some (showNatList ((channelCalibration groups (ch.replace "_" " ") s w).map (·.id)))
+  | "c05.cropread2" :: rest => do
+    -- export with window (a, b), reopen, export with (c, d), reopen
+    let (s, ws) ← C01.mkSrc? rest
+    match ws with
+    | [a, b, c, d] => do
+      let a ← int? a; let b ← int? b; let c ← int? c; let d ← int? d
+      let r : Except String (Option C01.Src) :=
+        match cropExportRead flDouble s a b with
+        | .error e => .error e
+        | .ok none => .ok none
+        | .ok (some s1) => cropExportRead flDouble s1 c d
+      showExcept (fun (r : Option C01.Src) => match r with | none => "absent" | some x => C01.showSrc x) r
+    | _ => none
   | _ => none
 
 end Verif.C05
